@@ -544,7 +544,8 @@ p_uthread_sleep (puint32 msec)
 #  else
 		if (P_UNLIKELY ((result = nanosleep (&time_req, &time_rem)) != 0)) {
 #  endif
-			if (p_error_get_last_system () == EINTR)
+			/* clock_nanosleep() returns an error code, nanosleep() sets errno */
+			if (result == EINTR || (result == -1 && p_error_get_last_system () == EINTR))
 				time_req = time_rem;
 			else
 				return -1;
